@@ -27,7 +27,7 @@ def make_cfg(rng):
     cfg['p_say'] = rng.choice([0.0, 0.0, 0.2, 0.5])
     cfg['n_modules'] = (1, 1)
     cfg['n_funcs'] = (1, 3)
-    cfg['forms'] = list(gen.SIMPLE_FORMS) + ['emitop', 'emitnoeol', 'emitnoeol', 'writeout', 'writeout', 'const', 'const', 'modsay']
+    cfg['forms'] = list(gen.SIMPLE_FORMS) + ['emitop', 'emitnoeol', 'emitnoeol', 'writeout', 'writeout', 'const', 'const', 'modsay', 'strsemi', 'emitcr']
     cfg['p_none_want'] = rng.choice([0.0, 0.15])
     if rng.random() < 0.25:
         cfg['async_forms'] = list(gen.ASYNC_FORMS)
@@ -180,6 +180,8 @@ def generate(rng, tier):
         plan.append({'import': world['modules'][0]['name'], 'kind': 'print'})
     if rng.random() < 0.2:
         env['no_color'] = True              # NO_COLOR was set when xdoctest was imported
+    if rng.random() < 0.12:
+        env['warnings_error'] = True        # the host runs with -W error
     return {'profile': ID, 'world': world, 'ops': ops, 'plan': plan, 'env': env}
 
 
